@@ -36,6 +36,7 @@ class Sim:
         self.dups = 0
         self.errs_sent = 0
         self.badhex = 0
+        self.failopens = 0
         self.gets = [dict() for _ in modes]
 
     def close_world(self):
@@ -111,6 +112,8 @@ class Sim:
             if c.conn is None:
                 if c.can_connect() and a["opens"] < self.max_opens:
                     acts.append(("open", X))
+                    if "failopen" in self.adv and self.failopens < 1:
+                        acts.append(("failopen", X))
             else:
                 acts.append(("drop", X))
                 if c.conn.up:
@@ -127,7 +130,7 @@ class Sim:
                     acts.append(("badhex", X))
         if "third" in self.adv:
             for mid in sorted(self.world.server.mailboxes):
-                for ph in ("pake", "version", "0"):
+                for ph in ("pake", "pake-nov1", "version", "0"):
                     if (mid, ph) not in self.third_added and len(self.third_added) < 2:
                         acts.append(("third", mid, ph))
         if self.world.clock.getDelayedCalls():
@@ -145,6 +148,10 @@ class Sim:
             self.third_added.add((mid, ph))
             mb = self.world.server.mailbox(mid)
             body = bytes_to_hexstr(b"third-party-" + ph.encode())
+            if ph == "pake-nov1":
+                # a well-formed JSON object that is not a PAKE message (no pake_v1 key)
+                from wormhole.util import dict_to_bytes
+                ph, body = "pake", bytes_to_hexstr(dict_to_bytes({"not_pake": 1}))
             mb["msgs"].append((THIRD, ph, body))
             for cn in self.world.server.conns:
                 if cn.sub == mid and not getattr(cn, "dead", False):
@@ -193,6 +200,13 @@ class Sim:
                     d.addCallbacks(lambda r: entry.append(("ok", r)), lambda f: entry.append(("err", f.type.__name__)))
         elif kind == "stopped":
             c.fire_stopped()
+        elif kind == "failopen":
+            # a connection attempt that reaches TCP but fails the WebSocket negotiation: onClose without onOpen
+            self.failopens += 1
+            c.failed_opens = getattr(c, "failed_opens", 0) + 1
+            c.first_attempt_failed = getattr(c, "first_attempt_failed", False) or (a["opens"] == 0)
+            c._call("ws_close", c.rc.ws_close, False, 1006, "websocket negotiation failed")
+            self.world.settle(deliver=False, stop=False)
         elif kind == "open":
             a["opens"] += 1
             c.open()
@@ -238,8 +252,11 @@ class Sim:
 
 
 def honest_policy(close=True, order=("open", "rx", "proc", "turn", "set_code", "allocate", "input", "choose_nameplate",
-                                     "choose_words", "send", "stopped")):
+                                     "choose_words", "send", "stopped"), prefer=None):
     def pol(sim, acts):
+        if prefer is not None:
+            # deliveries to the preferred client first: the other client's inbound queue piles up
+            acts = sorted(acts, key=lambda a: 0 if (len(a) > 1 and a[1] == prefer) else 1)
         for kind in order:
             for a in acts:
                 if a[0] == kind:
